@@ -738,7 +738,7 @@ pub fn signed_bitmessage_to_buf(
 ) -> ProtoResult<(Vec<u8>, Box<Record<TSIG>>)> {
     let mut decoder = BinDecoder::new(message);
     let Header {
-        mut metadata,
+        metadata,
         mut counts,
     } = Header::read(&mut decoder)?;
 
@@ -796,7 +796,6 @@ pub fn signed_bitmessage_to_buf(
     }
 
     let tsig = &tsig_rr.data;
-    metadata.id = tsig.oid;
 
     // Construct the TBS data.
     let mut buf = Vec::with_capacity(message.len());
@@ -808,8 +807,15 @@ pub fn signed_bitmessage_to_buf(
         encoder.emit_slice(previous_hash)?;
     }
 
-    // Emit the header we modified to remove the TSIG additional record.
-    Header { metadata, counts }.emit(&mut encoder)?;
+    // Emit the header with the original id restored and the additional count adjusted to
+    // remove the TSIG record.  The other header bytes are digested exactly as received
+    // (RFC 8945 4.3.3: "the whole and complete DNS message in wire format"): re-encoding the
+    // parsed header would silently drop bits it does not model, such as the reserved Z bit.
+    let mut header = [0u8; 12];
+    header.copy_from_slice(&message[..12]);
+    header[0..2].copy_from_slice(&tsig.oid.to_be_bytes());
+    header[10..12].copy_from_slice(&counts.additionals.to_be_bytes());
+    encoder.emit_slice(&header)?;
 
     // Emit all the message data between the header and the TSIG record.
     encoder.emit_slice(&message[start_data..end_data])?;
